@@ -274,7 +274,7 @@ package mvp6_3
 // with them; `ret` is pushed only when nothing is waiting ahead of it and no
 // conditional branch is unresolved; at most one branch is pushed per cycle.
 //@ spec func cuWired(u *controlUnit, ctx *risc.Context) bool = u != nil && u.outBus != nil && u.pushedRunnersInCurrentCycle != nil && risc.wfBoard(ctx) && risc.smallBoard(ctx) \
-//@    && (forall p *risc.InstructionRunnerPc :: p in u.pushedRunnersInPreviousCycle ==> p != nil && p.Runner != nil) \
+//@    && (forall p *risc.InstructionRunnerPc :: p in u.pushedRunnersInPreviousCycle ==> p != nil && p.Runner != nil) && (forall p *risc.InstructionRunnerPc :: p in u.pushedRunnersInCurrentCycle ==> p != nil && p.Runner != nil) \
 //@    && (forall i :: 0 <= i && i < len(u.skippedInCurrentCycle) ==> u.skippedInCurrentCycle[i].Runner != nil)
 
 // An instruction may overtake the instructions skipped earlier in this cycle
@@ -300,11 +300,34 @@ package mvp6_3
 //@   loop 5: invariant forall k :: 0 <= k && k < _idx5 ==> _range5[k] != _range3[_idx3]
 
 //@ func (*controlUnit).shouldUseForwarding
-//@   requires u != nil && runner != nil && runner.Runner != nil && (forall p *risc.InstructionRunnerPc :: p in u.pushedRunnersInPreviousCycle ==> p != nil && p.Runner != nil)
+//@   requires u != nil && runner != nil && runner.Runner != nil && (forall p *risc.InstructionRunnerPc :: p in u.pushedRunnersInPreviousCycle ==> p != nil && p.Runner != nil) && (forall p *risc.InstructionRunnerPc :: p in u.pushedRunnersInCurrentCycle ==> p != nil && p.Runner != nil)
 //@   ensures result ==> result1 != nil && result1 in u.pushedRunnersInPreviousCycle && result2 != risc.Zero && risc.readCount(runner.Runner, result2) > 0 && risc.writeCount(result1.Runner, result2) > 0
 //@   ensures result ==> len(hazards) <= 1 && len(hazardTypes) <= 1 && hazardTypes[risc.ReadAfterWrite]
+//@   -- (F24) the forward comes from the YOUNGEST previous-cycle writer of the register, and only if no
+//@   -- instruction pushed in the current cycle (renaming) writes a register the receiver reads
+//@   ensures result ==> (forall p *risc.InstructionRunnerPc :: p in u.pushedRunnersInPreviousCycle && risc.writeCount(p.Runner, result2) > 0 ==> p.SequenceID <= result1.SequenceID)
+//@   ensures result ==> (forall c *risc.InstructionRunnerPc, r risc.RegisterType :: c in u.pushedRunnersInCurrentCycle && r != risc.Zero && risc.readCount(runner.Runner, r) > 0 ==> risc.writeCount(c.Runner, r) == 0)
 //@   ensures !result ==> result1 == nil && result2 == risc.Zero
 //@   assigns nothing
+//@   loop 0: invariant forall c *risc.InstructionRunnerPc, r risc.RegisterType :: visited(c) && r != risc.Zero && risc.readCount(runner.Runner, r) > 0 ==> risc.writeCount(c.Runner, r) == 0
+//@   loop 1: invariant len(_range1) <= 2 && (forall r risc.RegisterType :: risc.occ(_range1, r) == risc.writeCount(currentRunner.Runner, r))
+//@   loop 1: invariant forall k, r risc.RegisterType :: 0 <= k && k < _idx1 && r == _range1[k] && r != risc.Zero ==> risc.readCount(runner.Runner, r) == 0
+//@   loop 2: invariant len(_range2) <= 2 && (forall r risc.RegisterType :: risc.occ(_range2, r) == risc.readCount(runner.Runner, r))
+//@   loop 2: invariant forall k :: 0 <= k && k < _idx2 ==> !(_range2[k] != risc.Zero && _range2[k] == _range1[_idx1])
+//@   loop 3: invariant source == nil ==> register == risc.Zero
+//@   loop 3: invariant source != nil ==> source in u.pushedRunnersInPreviousCycle && register != risc.Zero && risc.readCount(runner.Runner, register) > 0 && risc.writeCount(source.Runner, register) > 0
+//@   loop 3: invariant forall p *risc.InstructionRunnerPc, r risc.RegisterType :: visited(p) && r != risc.Zero && risc.readCount(runner.Runner, r) > 0 && risc.writeCount(p.Runner, r) > 0 ==> source != nil && p.SequenceID <= source.SequenceID
+//@   loop 4: invariant len(_range4) <= 2 && (forall r risc.RegisterType :: risc.occ(_range4, r) == risc.writeCount(previousRunner.Runner, r))
+//@   loop 4: invariant source == nil ==> register == risc.Zero
+//@   loop 4: invariant source != nil ==> source in u.pushedRunnersInPreviousCycle && register != risc.Zero && risc.readCount(runner.Runner, register) > 0 && risc.writeCount(source.Runner, register) > 0
+//@   loop 4: invariant forall p *risc.InstructionRunnerPc, r risc.RegisterType :: visited(p) && p != previousRunner && r != risc.Zero && risc.readCount(runner.Runner, r) > 0 && risc.writeCount(p.Runner, r) > 0 ==> source != nil && p.SequenceID <= source.SequenceID
+//@   loop 4: invariant forall k, r risc.RegisterType :: 0 <= k && k < _idx4 && r == _range4[k] && r != risc.Zero && risc.readCount(runner.Runner, r) > 0 ==> source != nil && previousRunner.SequenceID <= source.SequenceID
+//@   loop 5: invariant len(_range5) <= 2 && (forall r risc.RegisterType :: risc.occ(_range5, r) == risc.readCount(runner.Runner, r))
+//@   loop 5: invariant source == nil ==> register == risc.Zero
+//@   loop 5: invariant source != nil ==> source in u.pushedRunnersInPreviousCycle && register != risc.Zero && risc.readCount(runner.Runner, register) > 0 && risc.writeCount(source.Runner, register) > 0
+//@   loop 5: invariant forall p *risc.InstructionRunnerPc, r risc.RegisterType :: visited(p) && p != previousRunner && r != risc.Zero && risc.readCount(runner.Runner, r) > 0 && risc.writeCount(p.Runner, r) > 0 ==> source != nil && p.SequenceID <= source.SequenceID
+//@   loop 5: invariant forall k, r risc.RegisterType :: 0 <= k && k < _idx4 && r == _range4[k] && r != risc.Zero && risc.readCount(runner.Runner, r) > 0 ==> source != nil && previousRunner.SequenceID <= source.SequenceID
+//@   loop 5: invariant forall k :: 0 <= k && k < _idx5 && _range5[k] != risc.Zero && _range5[k] == _range4[_idx4] ==> source != nil && previousRunner.SequenceID <= source.SequenceID
 
 //@ func (*controlUnit).pushRunner
 //@   requires u != nil && u.outBus != nil && runner != nil && runner.Runner != nil && risc.wfBoard(ctx) && risc.smallBoard(ctx) && cycle < 9223372036854775807
@@ -320,7 +343,8 @@ package mvp6_3
 //@   nooverflow u.forwarding, u.blockedDataHazard
 //@   ensures push && runner.Receiver == old(runner.Receiver) ==> (forall r risc.RegisterType :: !old(risc.isRAW(ctx, runner.Runner, r)))
 //@   ensures push && runner.Receiver != old(runner.Receiver) ==> runner.ForwardRegister != risc.Zero && risc.readCount(runner.Runner, runner.ForwardRegister) > 0
-//@   ensures push && runner.Receiver != old(runner.Receiver) ==> (exists p *risc.InstructionRunnerPc :: p in u.pushedRunnersInPreviousCycle && p.Forwarder == runner.Receiver && risc.writeCount(p.Runner, runner.ForwardRegister) > 0)
+//@   ensures push && runner.Receiver != old(runner.Receiver) ==> (exists p *risc.InstructionRunnerPc :: p in u.pushedRunnersInPreviousCycle && p.Forwarder == runner.Receiver && risc.writeCount(p.Runner, runner.ForwardRegister) > 0 && (forall p2 *risc.InstructionRunnerPc :: p2 in u.pushedRunnersInPreviousCycle && risc.writeCount(p2.Runner, runner.ForwardRegister) > 0 ==> p2.SequenceID <= p.SequenceID))
+//@   ensures push && runner.Receiver != old(runner.Receiver) ==> (forall c *risc.InstructionRunnerPc :: c in u.pushedRunnersInCurrentCycle ==> risc.writeCount(c.Runner, runner.ForwardRegister) == 0)
 //@   ensures forall p *risc.InstructionRunnerPc :: p != runner && allocated(p) ==> p.Receiver == old(p.Receiver) && p.ForwardRegister == old(p.ForwardRegister)
 //@   ensures push ==> (forall i :: 0 <= i && i < len(u.skippedInCurrentCycle) ==> noConflict(runner.Runner, u.skippedInCurrentCycle[i].Runner))
 //@   ensures push && risc.insType(runner.Runner) == risc.Ret ==> old(len(u.outBus.queue)) == 0 && old(len(u.outBus.buffer)) == 0 && !u.pendingConditionalBranch
